@@ -159,7 +159,7 @@ Pop(v) == PopVisit(v) \/ PopDefer(v)
 (* node is popped (x = cur.snap) is admitted too: the two differ only      *)
 (* after a self-loop changed the node, which has re-queued it.  The model- *)
 (* checking instance shows that every property below holds for both.       *)
-InputChoices(e) == {val[Src(cfg, e)], cur.snap}
+InputChoices(e) == IF cur = NoCur THEN {} ELSE {val[Src(cfg, e)], cur.snap}
 UpdateEdgeWith(e, x) ==
   /\ phase = "run" /\ cur # NoCur /\ e \in cur.todo /\ x \in InputChoices(e)
   /\ cur' = [cur EXCEPT !.todo = @ \ {e}]
@@ -171,8 +171,7 @@ UpdateEdgeWith(e, x) ==
           THEN val' = [val EXCEPT ![d] = new] /\ wl' = wl \cup {d}      \* set_node_value
           ELSE UNCHANGED <<val, wl>>
   /\ UNCHANGED <<cfg, lfp, steps, unstable, phase>>
-UpdateEdge(e) == /\ phase = "run" /\ cur # NoCur /\ e \in cur.todo
-                 /\ \E x \in InputChoices(e) : UpdateEdgeWith(e, x)
+UpdateEdge(e) == \E x \in InputChoices(e) : UpdateEdgeWith(e, x)
 
 FinishNode ==
   /\ phase = "run" /\ cur # NoCur /\ cur.todo = {}
